@@ -14,6 +14,7 @@
    entries) never contained it; the model never writes the secret anywhere but the header (by inspection of
    enc_entry / node / page codecs); tools/c12.py searches the raw bytes of all four files for every 16-byte
    window of the key and enumerates all crash points inside make_read_only. *)
+From HC Require Import ClearRefine Unified1 CrashClear1 ReadOnlyClear.
 From HC Require Import Base NMap Codec Crypto FlatTree Storage Bitfield Oplog Merkle Core CoreFacts.
 From HC Require Import Refine Reopen ReadOnly.
 
@@ -229,6 +230,180 @@ Theorem C12_secret_gone_after_any_completed_call :
                  kp_public (c_keypair c2) = kp_public (c_keypair c))).
 Proof. exact secret_gone_after_any_completed_call. Qed.
 
+Theorem C12_with_clears_make_read_only :
+  forall cr : crypto,
+         (forall x : bytes, Datatypes.length (cr_hash cr x) = 32%nat) ->
+         (forall x : bytes, all_zero (cr_hash cr x) = false) ->
+         (forall x : bytes, bytes_ok (cr_hash cr x) = true) ->
+         forall (c : core) (d : disk) (j : list sop) (ev : list event) (bs : list bytes) (cl : N -> bool),
+         YInv cr c d bs cl ->
+         let n := N.of_nat (Datatypes.length bs) in
+         exists d' : disk,
+           core_make_read_only cr c {| w_disk := d; w_journal := j; w_events := ev |} =
+           (ro_core c, {| w_disk := d'; w_journal := rev (ro_ops cr c) ++ j; w_events := ev |},
+            Ok (i_writeable (core_info c))) /\
+           apply_sops d (ro_ops cr c) = Some d' /\
+           YInv cr (ro_core c) d' bs cl /\
+           d_data d' = d_data d /\
+           f_content (d_oplog d') = ro_oplog_file cr c /\
+           f_len (d_oplog d') = ENTRIES_OFFSET /\
+           (forall i : N, fbit (d_bitfield d') i = held n cl i) /\
+           lookups cr tE (d_tree d') bs n /\
+           (forall k : nat,
+            exists dk : disk,
+              apply_sops d (firstn k (ro_ops cr c)) = Some dk /\
+              YDisk cr (if (k <=? ro_np c)%nat then c_keypair c else ro_keypair c) dk bs cl).
+Proof. exact make_read_only_Y. Qed.
+
+Theorem C12_with_clears_observations :
+  forall cr : crypto,
+         (forall x : bytes, Datatypes.length (cr_hash cr x) = 32%nat) ->
+         (forall x : bytes, all_zero (cr_hash cr x) = false) ->
+         (forall x : bytes, bytes_ok (cr_hash cr x) = true) ->
+         forall (c : core) (d : disk) (j : list sop) (ev : list event) (bs : list bytes) (cl : N -> bool),
+         YInv cr c d bs cl ->
+         exists (c' : core) (w' : world),
+           core_make_read_only cr c {| w_disk := d; w_journal := j; w_events := ev |} =
+           (c', w', Ok (i_writeable (core_info c))) /\
+           w_events w' = ev /\
+           w_journal w' = rev (ro_ops cr c) ++ j /\
+           YInv cr c' (w_disk w') bs cl /\
+           obs_cleared c d bs cl /\
+           obs_cleared c' (w_disk w') bs cl /\
+           same_reads c d c' (w_disk w') /\
+           i_writeable (core_info c') = false /\
+           c_keypair c' = {| kp_public := kp_public (c_keypair c); kp_secret := None |} /\
+           kp_secret (hd_keypair (c_header c')) = None /\
+           ol_entries_len (c_oplog c') = 0 /\
+           ol_entries_bytes (c_oplog c') = 0 /\
+           d_data (w_disk w') = d_data d /\
+           f_len (d_oplog (w_disk w')) = 8192 /\
+           f_content (d_oplog (w_disk w')) = ro_oplog_file cr c /\
+           (forall s : option bytes, ro_oplog_file cr c = ro_oplog_file cr (with_secret c s)) /\
+           (forall (f : option bool) (batch : list bytes) (w : world),
+            core_append cr f batch c' w = (c', w, Err NotWritable)).
+Proof. exact make_read_only_observations_Y. Qed.
+
+Theorem C12_with_clears_second_call :
+  forall cr : crypto,
+         (forall x : bytes, Datatypes.length (cr_hash cr x) = 32%nat) ->
+         (forall x : bytes, all_zero (cr_hash cr x) = false) ->
+         (forall x : bytes, bytes_ok (cr_hash cr x) = true) ->
+         forall (c : core) (d : disk) (j : list sop) (ev : list event) (bs : list bytes) (cl : N -> bool),
+         YInv cr c d bs cl ->
+         exists (c1 : core) (w1 : world) (c2 : core) (w2 : world),
+           core_make_read_only cr c {| w_disk := d; w_journal := j; w_events := ev |} =
+           (c1, w1, Ok (i_writeable (core_info c))) /\
+           core_make_read_only cr c1 w1 = (c2, w2, Ok false) /\
+           w_events w2 = ev /\
+           YInv cr c2 (w_disk w2) bs cl /\
+           obs_cleared c2 (w_disk w2) bs cl /\
+           same_reads c1 (w_disk w1) c2 (w_disk w2) /\
+           same_reads c d c2 (w_disk w2) /\
+           i_writeable (core_info c2) = false /\
+           kp_secret (c_keypair c2) = None /\
+           c_keypair c2 = c_keypair c1 /\
+           hd_keypair (c_header c2) = hd_keypair (c_header c1) /\
+           kp_secret (hd_keypair (c_header c2)) = None /\
+           ol_entries_len (c_oplog c2) = 0 /\
+           ol_entries_bytes (c_oplog c2) = 0 /\
+           d_data (w_disk w2) = d_data d /\
+           f_len (d_oplog (w_disk w2)) = 8192 /\ f_content (d_oplog (w_disk w2)) = ro_oplog_file cr c1.
+Proof. exact make_read_only_twice_Y. Qed.
+
+Theorem C12_with_clears_reopens_read_only :
+  forall cr : crypto,
+         OplogFacts.crc_ok cr ->
+         (forall x : bytes, Datatypes.length (cr_hash cr x) = 32%nat) ->
+         (forall x : bytes, all_zero (cr_hash cr x) = false) ->
+         (forall x : bytes, bytes_ok (cr_hash cr x) = true) ->
+         forall (c : core) (d : disk) (j : list sop) (ev : list event) (bs : list bytes) (cl : N -> bool),
+         YInv cr c d bs cl ->
+         exists (c' : core) (w' : world) (c'' : core),
+           core_make_read_only cr c {| w_disk := d; w_journal := j; w_events := ev |} =
+           (c', w', Ok (i_writeable (core_info c))) /\
+           core_open cr None true (w_disk w') = (w_disk w', [], Ok c'') /\
+           YInv cr c'' (w_disk w') bs cl /\
+           c_keypair c'' = {| kp_public := kp_public (c_keypair c); kp_secret := None |} /\
+           hd_keypair (c_header c'') = {| kp_public := kp_public (c_keypair c); kp_secret := None |} /\
+           i_writeable (core_info c'') = false /\
+           obs_cleared c'' (w_disk w') bs cl /\
+           same_reads c d c'' (w_disk w') /\
+           (forall (f : option bool) (batch : list bytes) (w : world),
+            core_append cr f batch c'' w = (c'', w, Err NotWritable)) /\
+           (forall (j2 : list sop) (ev2 : list event),
+            exists (c3 : core) (w3 : world),
+              core_make_read_only cr c'' {| w_disk := w_disk w'; w_journal := j2; w_events := ev2 |} =
+              (c3, w3, Ok false) /\
+              YInv cr c3 (w_disk w3) bs cl /\
+              same_reads c d c3 (w_disk w3) /\
+              i_writeable (core_info c3) = false /\
+              f_len (d_oplog (w_disk w3)) = 8192 /\ f_content (d_oplog (w_disk w3)) = ro_oplog_file cr c'').
+Proof. exact read_only_reopen_Y. Qed.
+
+Theorem C12_with_clears_crash_inside_recovers :
+  forall cr : crypto,
+         OplogFacts.crc_ok cr ->
+         (forall x : bytes, Datatypes.length (cr_hash cr x) = 32%nat) ->
+         (forall x : bytes, all_zero (cr_hash cr x) = false) ->
+         (forall x : bytes, bytes_ok (cr_hash cr x) = true) ->
+         forall (c : core) (d : disk) (bs : list bytes) (cl : N -> bool) (k : nat),
+         YInv cr c d bs cl ->
+         exists dk : disk,
+           apply_sops d (firstn k (ro_ops cr c)) = Some dk /\
+           (exists (dk' : disk) (ops : list sop) (ck : core),
+              core_open cr None true dk = (dk', ops, Ok ck) /\
+              d_tree dk' = d_tree dk /\
+              d_data dk' = d_data dk /\
+              d_bitfield dk' = d_bitfield dk /\
+              (ops = [] /\ dk' = dk \/ ops = [ST Oplog ENTRIES_OFFSET]) /\
+              YInv cr ck dk' bs cl /\
+              obs_cleared ck dk' bs cl /\
+              same_reads c d ck dk' /\
+              hd_keypair (c_header ck) = c_keypair ck /\
+              kp_public (c_keypair ck) = kp_public (c_keypair c) /\
+              ((k <= ro_np c)%nat ->
+               c_keypair ck = c_keypair c /\ i_writeable (core_info ck) = i_writeable (core_info c)) /\
+              ((ro_np c < k)%nat ->
+               c_keypair ck = {| kp_public := kp_public (c_keypair c); kp_secret := None |} /\
+               i_writeable (core_info ck) = false)).
+Proof. exact make_read_only_crash_Y. Qed.
+
+Theorem C12_with_clears_secret_gone_after_any_completed_call :
+  forall cr : crypto,
+         OplogFacts.crc_ok cr ->
+         (forall x : bytes, Datatypes.length (cr_hash cr x) = 32%nat) ->
+         (forall x : bytes, all_zero (cr_hash cr x) = false) ->
+         (forall x : bytes, bytes_ok (cr_hash cr x) = true) ->
+         forall (c : core) (d : disk) (bs : list bytes) (cl : N -> bool) (k : nat),
+         YInv cr c d bs cl ->
+         exists dk : disk,
+           apply_sops d (firstn k (ro_ops cr c)) = Some dk /\
+           (exists (dk' : disk) (ops : list sop) (ck : core),
+              core_open cr None true dk = (dk', ops, Ok ck) /\
+              obs_cleared ck dk' bs cl /\
+              same_reads c d ck dk' /\
+              (forall (j : list sop) (ev : list event),
+               exists (c2 : core) (d2 : disk),
+                 core_make_read_only cr ck {| w_disk := dk'; w_journal := j; w_events := ev |} =
+                 (c2, {| w_disk := d2; w_journal := rev (ro_ops cr ck) ++ j; w_events := ev |},
+                  Ok (i_writeable (core_info ck))) /\
+                 f_len (d_oplog d2) = 8192 /\
+                 f_content (d_oplog d2) = ro_oplog_file cr ck /\
+                 (forall s : option bytes, ro_oplog_file cr ck = ro_oplog_file cr (with_secret ck s)) /\
+                 (exists (x0 x1 : list N) (h : header) (v0 v1 : bool),
+                    f_content (d_oplog d2) = x0 ++ x1 /\
+                    Crash.slot_is cr x0 (Crash.SValid h v0) /\
+                    Crash.slot_is cr x1 (Crash.SValid h v1) /\ kp_secret (hd_keypair h) = None) /\
+                 YInv cr c2 d2 bs cl /\
+                 obs_cleared c2 d2 bs cl /\
+                 same_reads c d c2 d2 /\
+                 i_writeable (core_info c2) = false /\
+                 kp_secret (c_keypair c2) = None /\
+                 kp_secret (hd_keypair (c_header c2)) = None /\
+                 kp_public (c_keypair c2) = kp_public (c_keypair c))).
+Proof. exact secret_gone_after_any_completed_call_Y. Qed.
+
 Print Assumptions C12_not_writable.
 Print Assumptions C12_call_reports_writability.
 Print Assumptions C12_secret_erased_in_every_case.
@@ -248,3 +423,13 @@ Print Assumptions C12_open_with_key_pair_rejected.
 Print Assumptions C12_oplog_file_after.
 Print Assumptions C12_crash_inside_recovers.
 Print Assumptions C12_secret_gone_after_any_completed_call.
+Print Assumptions C12_with_clears_make_read_only.
+Print Assumptions C12_with_clears_observations.
+Print Assumptions C12_with_clears_second_call.
+Print Assumptions C12_with_clears_reopens_read_only.
+Print Assumptions C12_with_clears_crash_inside_recovers.
+Print Assumptions C12_with_clears_secret_gone_after_any_completed_call.
+Print Assumptions ReadOnlyClear.toy_read_only_clear_run.
+Print Assumptions ReadOnlyClear.toy_read_only_clear_crash.
+Print Assumptions ReadOnlyClear.toy_clear_secret_gone_after_crash_then_second_call.
+Print Assumptions ReadOnlyClear.toy_cstate_YInv.
